@@ -248,9 +248,10 @@ func runCheck(def *CheckDef, tier string, seed int, noKnown, noReplay bool, only
 	distinctNT := 0
 	crossQ, crossD := 0, 0
 	passingValidated := 0
-	passingBudget := 2
-	if tier == "thorough" {
-		passingBudget = 8
+	// passing-path validation budget: quick = 4 jobs, thorough = every replayable job (VERIF_PASSING_ALL=1: every job in any tier)
+	passingBudget := 4
+	if tier == "thorough" || os.Getenv("VERIF_PASSING_ALL") == "1" {
+		passingBudget = 1000
 	}
 	var passing []map[string]interface{}
 	var partial []map[string]interface{}
@@ -310,7 +311,13 @@ func runCheck(def *CheckDef, tier string, seed int, noKnown, noReplay bool, only
 		}
 		// passing-path validation: a model of a passing symbolic path must also pass natively
 		if !o.spec.NoReplay && !o.spec.Witness && !noReplay && len(r.OKSamples) > 0 && passingValidated < passingBudget {
+			// the sample that went furthest: most reach labels, then the longest decision trace
 			s := r.OKSamples[0]
+			for _, c := range r.OKSamples[1:] {
+				if len(c.Reach) > len(s.Reach) || (len(c.Reach) == len(s.Reach) && len(c.Trace) > len(s.Trace)) {
+					s = c
+				}
+			}
 			ro, err := writeReplayIn(def.ID, "passing", o.spec, s, passingValidated, known, true)
 			if err == nil {
 				passingValidated++
